@@ -20,6 +20,7 @@ RULE = (
     "unknown or non-string names), built three ways (specific class, unified class, parse_message); oracle: never raises, exactly one grammar-valid response with the "
     "request's id and the documented error code, none for notifications, response line re-parses to itself; non-trivial = a notification other than notifications/initialized, "
     "or a raising / non-string-returning handler, or id in {0, '', negative}; distinct = distinct case"
+    "; round 8: clientInfo of any JSON shape at initialize followed by session-bound messages; dozens of failing tool calls accumulating on one server instance"
     "; added in rounds 6-7 of the seeded changes: 2..4 messages in flight on one server incl. the same id on two connections; 64 (exception type, text) pairs; 44 colliding argument names"
 )
 ASSUMPTIONS = [
@@ -245,7 +246,7 @@ def check_life(case: Dict[str, Any]) -> Outcome:
         from chuk_mcp.protocol.messages.json_rpc_message import parse_message
 
         async def go():
-            resp, sid = await ph.handle_message(parse_message({"jsonrpc": "2.0", "id": "i", "method": "initialize", "params": {"protocolVersion": "2025-06-18", "capabilities": {}, "clientInfo": {"name": "c", "version": "1"}}}))
+            resp, sid = await ph.handle_message(parse_message({"jsonrpc": "2.0", "id": "i", "method": "initialize", "params": {"protocolVersion": "2025-06-18", "capabilities": {}, "clientInfo": case.get("client_info", {"name": "c", "version": "1"})}}))
             sids = [sid]
             for k in range(case["n"]):
                 if k % case["gap_every"] == 0:
@@ -259,6 +260,9 @@ def check_life(case: Dict[str, Any]) -> Outcome:
                     wire = {"jsonrpc": "2.0", "method": "notifications/cancelled", "params": {"requestId": "x"}}
                 else:
                     wire = {"jsonrpc": "2.0", "id": k, "method": ["ping", "tools/list", "tools/call"][kind], "params": {"name": "tool0", "arguments": {}} if kind == 2 else {}}
+                    if kind == 2 and case.get("failing") and (k // 4) % case["failing"] == 0:
+                        # calls that fail (the tool raises; arguments null / not an object) among calls that succeed
+                        wire["params"] = [{"name": "tool1", "arguments": {}}, {"name": "tool0", "arguments": None}, {"name": "tool0", "arguments": [1]}, {"name": "tool1"}][(k // 4) % 4]
                 try:
                     resp, _sid = await ph.handle_message(parse_message(wire), use)
                 except Exception as e:  # noqa
@@ -275,6 +279,9 @@ def check_life(case: Dict[str, Any]) -> Outcome:
 
         run_virtual(go)
     except Exception as e:  # noqa
+        if type(e).__name__ == "VirtualDeadlock":
+            out.fail("request-never-answered", "a session-bound message was dispatched and dispatch never returned (nothing left to wait for)")
+            return out
         out.fail("long-life-harness-raised", f"{type(e).__name__}: {e}")
     finally:
         memmod.time = real  # type: ignore
@@ -712,6 +719,16 @@ def job_life(col: Collector, seed: int, tier: str) -> None:
     for n, gap_every, gaps in ((200, 1, [3601]), (300, 7, [7200, 10, 86400]), (260, 63, [3700]), (260, 64, [3700]), (260, 65, [3700]), (400, 16, [3599, 3601]), (150, 3, [0, 1, 4000])):
         case = {"n": n, "gap_every": gap_every, "gaps": gaps}
         col.record(case, check(case))
+    # what the client said about itself at initialize (stored verbatim) must not matter to any later message of the session
+    infos = ["a string", ["a", "list"], None, 7, True, {}, {"name": ["n", 1]}, {"name": {"k": "v"}}, {"name": None, "version": None}, {"name": 5, "version": [1]}, {"version": "1"}, {"name": "x" * 70000}, {"name": "c", "version": "1", "extra": {"deep": [None]}}]
+    for ci in infos:
+        case = {"n": 12, "gap_every": 5, "gaps": [10, 4000], "client_info": ci}
+        col.record(case, check(case))
+    # failing calls accumulating on one server instance, successes in between
+    for n, failing in ((120, 1), (200, 2), (400, 3)):
+        case = {"n": n, "gap_every": 50, "gaps": [1], "failing": failing}
+        col.record(case, check(case))
+    col.exhaustive_parts.append("13 shapes of clientInfo (non-objects, unhashable / null / huge names) followed by 12 session-bound messages; 3 connections on which every 1st / 2nd / 3rd tool call fails (30..100 failures) among successful ones")
     col.exhaustive_parts.append("7 long-lived connections: 150..400 session-bound messages with clock gaps of up to a day at various periods")
 
 
